@@ -215,6 +215,7 @@ func runC09(c *Ctx) {
 		}
 	}
 	checkEarlyWgAccounting(c)
+	checkEarlyWgOrdering(c)
 
 	// ---------------------------------------------------------------- R4
 	c.rule("R4", "the admission test does not count an in-flight query twice; the waiter table is only entered with a reservation", 2)
@@ -602,6 +603,78 @@ func runC09R5(c *Ctx, fns []*ssa.Function) {
 				c.ok(key, instrPos(in), "consumed exactly once or returned on every path where it is non-nil")
 			}
 		})
+	}
+}
+
+// checkEarlyWgOrdering (C09-R3, C07-R9): Wait is only reachable when the dial succeeded (Done is not guaranteed on the
+// dial-failed path), and an early exchanger signals Done only after it re-reserved on the real connection.
+func checkEarlyWgOrdering(c *Ctx) {
+	p := c.P
+	T := relTransport + "."
+	wgF := T + "lazyDnsConn.earlyReserveCallWg"
+	isWg := func(ci *ssa.Call, m string) bool {
+		if callName(ci) != "(*sync.WaitGroup)."+m {
+			return false
+		}
+		k, ok := fieldKey(ci.Call.Args[0])
+		return ok && k == wgF
+	}
+	nWait := 0
+	for _, f := range p.funcsIn(relTransport) {
+		fn := f
+		eachInstr(f, func(in ssa.Instruction) {
+			ci, ok := in.(*ssa.Call)
+			if !ok {
+				return
+			}
+			if isWg(ci, "Wait") {
+				nWait++
+				okG := false
+				for _, g := range guardsOfInstr(in) {
+					if cm, ok := g.asCmp(); ok && isNilConst(cm.Y) && cm.Op == token.EQL {
+						if k, ok := loadedField(cm.X); ok && k == T+"lazyDnsConn.dialErr" {
+							okG = true
+						}
+					}
+				}
+				c.check(okG, "wg.Wait-only-after-successful-dial@"+funcName(fn), instrPos(in), "Wait is reached only when the dial succeeded",
+					"Wait on the early-reservation wait group is reachable after a failed dial, where the queued calls never call Done: the reservation blocks forever while holding the connection and transport locks")
+			}
+			if isWg(ci, "Done") && strings.HasSuffix(fn.Name(), "ExchangeReserved") {
+				// on the dial-finished path (not the ctx path): dominated by the own ReserveNewQuery on the real connection
+				onCtxPath := false
+				for _, b := range []*ssa.BasicBlock{in.Block()} {
+					for d := b; d != nil; d = d.Idom() {
+						for _, x := range d.Instrs {
+							if sel, ok := x.(*ssa.Select); ok {
+								cases, _, okd := decodeSelect(sel)
+								if okd {
+									for _, cs := range cases {
+										if cs.Body != nil && cs.Body.Dominates(b) && isCtxDone(cs.State.Chan) {
+											onCtxPath = true
+										}
+									}
+								}
+							}
+						}
+					}
+				}
+				if onCtxPath {
+					return
+				}
+				reReserved := false
+				eachInstr(fn, func(x ssa.Instruction) {
+					if c2, ok := x.(*ssa.Call); ok && c2.Call.IsInvoke() && c2.Call.Method.Name() == "ReserveNewQuery" && instrDominates(x, in) {
+						reReserved = true
+					}
+				})
+				c.check(reReserved, "wg.Done-after-re-reserve@"+funcName(fn), instrPos(in), "a queued call takes its slot on the real connection before it signals Done",
+					"a queued call signals Done before it re-reserved on the dialled connection: a later caller released from Wait takes the slot first and the queued query is refused although the dial succeeded with an equal limit")
+			}
+		})
+	}
+	if nWait == 0 {
+		c.anchorMissing("Wait on lazyDnsConn.earlyReserveCallWg")
 	}
 }
 
